@@ -18,6 +18,17 @@ ALPHA = 1000 / 2.99792458
 TWO_PI = 2 * math.pi
 
 
+def regen(chk: core.Check) -> bool:
+    """regenerate Gen/HelixPy.lean from the working tree (symbolic tie: Props/HelixTie.lean proves it equal to the hand-written model)"""
+    from translate import gen
+    g = gen.gen_helix()
+    if not g["ok"]:
+        chk.obligation_broken("translator", "translate _change_pivot / caller wiring of helix.py into Gen/HelixPy.lean", g["error"])
+        return False
+    chk.coverage["helix_translation"] = g["info"]
+    return True
+
+
 def f2b(x) -> int:
     return int(np.float64(x).view(np.uint64))
 
@@ -145,7 +156,7 @@ def impl_arr(h, error=None, nest=None):
     import pybes3
 
     def mk(a):
-        a = ak.Array(np.asarray(a))
+        a = ak.Array(np.array(a, copy=True))       # never hand the harness's own buffers to the library
         for c in reversed(nest or []):
             a = ak.unflatten(a, c)
         return a
